@@ -376,7 +376,7 @@ class Threader:
                 if u != t:
                     others |= rs[u]
             for x in rs[t] - others:
-                if self.blocks[x]['term']['k'] == 'call':
+                if self.blocks[x]['term']['k'] == 'call' or self.blocks[x]['stmts']:
                     return True
         return False
 
